@@ -58,7 +58,7 @@ class C20(Prop):
             'well-typed by construction); non-trivial = generic or carrying an attribute')
 
     def n(self, tier):
-        return 700 if tier == 'quick' else 12000
+        return 700 if tier == 'quick' else 50000
 
     def cases(self, tier, rng):
         out = []
@@ -98,9 +98,12 @@ class C20(Prop):
             cmp_traits = [t for t in traits if t in CMP]
             # per-field attributes
             vs_s = []
+            v_has_field_bound = []
             bound_t_haskey = False
             for vi, (kind, fl) in enumerate(variants):
                 fs = []
+                n_used0 = len([a for a in attrs_used if a in ('key-generic', 'by-generic-bound')])
+                attrs_used_before = set(attrs_used)
                 by_pos = rng.randrange(len(fl)) if fl and rng.random() < 0.5 else None
                 tr_pos = rng.randrange(len(fl)) if fl and 'Debug' in traits and rng.random() < 0.15 else None
                 for i, ft in enumerate(fl):
@@ -149,6 +152,7 @@ class C20(Prop):
                 body = sx.named(fs) if kind == 'named' else (sx.unnamed(fs) if kind == 'tuple' else sx.UNIT)
                 va = [sx.a_default(sx.M_PATH)] if ('Default' in traits and is_enum and vi == dv and (nvar > 1 or rng.random() < 0.5)) else []
                 vs_s.append((body, va))
+                v_has_field_bound.append(any('bound ( T : HasKey )' in f or 'HasKey' in f for f in fs))
             # a variant-level `bound(T: Trait)` (no `..`) on a non-last variant: sufficient for that variant's fields, and
             # it must not leak into the variants after it
             if is_enum and nvar >= 2 and 'T' in needs and rng.random() < 0.45:
@@ -163,12 +167,18 @@ class C20(Prop):
                             'Hash': ['core', 'hash', 'Hash']}[tr]
                     # prefer a variant without parameter-typed fields: an empty `bound()` is sufficient for it and says
                     # nothing about `T`, so the later variants depend on their own default bounds
-                    free = [i for i in range(nvar - 1) if not any('T' in ft[1] for ft in variants[i][1])]
-                    vi = rng.choice(free) if free else rng.randrange(nvar - 1)
-                    pred = [] if free else [sx.b_pred(sx.wty(T, [sx.tb_trait(path)]))]
-                    attrs_used.add('variant-bound-empty' if free else 'variant-bound-pred')
-                    vs_s[vi] = (vs_s[vi][0], vs_s[vi][1] + [sx.a_derive_ex(sx.dx([(tr, (pred, False))]))])
-                    attrs_used.add('variant-bound-' + tr)
+                    # (a variant whose fields carry their own helper bound is left alone: a per-trait bound without `..`
+                    # on the variant comes BEFORE the field's helper attribute in the documented order and would hide it)
+                    cand = [i for i in range(nvar - 1) if not v_has_field_bound[i]]
+                    if not cand:
+                        cand = None
+                    free = [i for i in (cand or []) if not any('T' in ft[1] for ft in variants[i][1])]
+                    vi = rng.choice(free) if free else (rng.choice(cand) if cand else None)
+                    if vi is not None:
+                        pred = [] if free else [sx.b_pred(sx.wty(T, [sx.tb_trait(path)]))]
+                        attrs_used.add('variant-bound-empty' if free else 'variant-bound-pred')
+                        vs_s[vi] = (vs_s[vi][0], vs_s[vi][1] + [sx.a_derive_ex(sx.dx([(tr, (pred, False))]))])
+                        attrs_used.add('variant-bound-' + tr)
             # generics: only parameters some field uses; a default only on the last parameter
             params, where = [], []
             if "'a" in needs:
